@@ -439,7 +439,7 @@ func (g *seqGen) emit(op *Op) {
 	g.nextID++
 	g.ops = append(g.ops, *op)
 	switch op.K {
-	case "restart", "rawmsg", "rawbytes", "mnt", "umnt", "umntall", "dump", "export", "mountnull":
+	case "restart", "rawmsg", "rawbytes", "mnt", "umnt", "umntall", "dump", "export", "mountnull", "fillto":
 		return
 	}
 	in := toIn(op, g.tbl, &g.m.Lim)
